@@ -61,6 +61,15 @@ THEOREMS = {
     "C14_model_is_source_to_screen": "translation of ScreenSubset.to_screen: Screen(...) with exactly the seven keywords it passes (six parent arrays at the selected rows, control name; no mappings) = to_screen",
     "C14_model_is_source_attributes": "translations of the twelve attribute properties of ScreenSubset (parent.attr[selection_vector], or the parent's value for control name / mappings) = view_pids, view_sids, view_tids, ...",
     "C14_model_is_source_single_treatment_effects": "translation of ScreenSubset.single_treatment_effects = None when the parent's property is None, else its rows at the selection",
+    'C14_model_is_source_screen_properties': 'translations of ScreenBase.is_observed / n_plates / unique_sample_ids / n_unique_samples / unique_treatments / n_unique_treatments / treatment_arity on a Screen object = np.all of the mask, number of distinct plate ids, sorted distinct sample ids, their number, sorted distinct treatment ids without the control sentinel, their number, the arity',
+    'C14_model_is_source_view_properties': "the same one-line properties (and unique_plate_ids) on a ScreenSubset / Plate object = the same functions of the view's selected id / mask arrays",
+    'C14_model_is_source_plate_id': 'translation of Plate.plate_id = the single distinct plate id of the selected rows, refused for none or several',
+    'C14_model_is_source_plate_name': 'translation of Plate.plate_name = the plate name of the first selected row; IndexError when nothing is selected',
+    'C14_model_is_source_plate_lt': 'translation of Plate.__lt__ = comparison of the two sizes',
+    'C14_model_is_source_plate_merge': "translation of the whole Plate.merge = view_merge: parents compared by identity, self's selection := union, the union's rows of the PARENT get the plate name of the union's first row, the parent's plate ids are re-encoded from the new names by the translated encoder, self is returned (the parent's plate_mapping is left as it was)",
+    'C14_model_is_source_screen_combine': "translation of the whole Screen.combine = screen_combine: control names compared, then the constructor on self's rows followed by other's (each per-row array concatenated in that order, masks included), observations and mask passed, no mappings",
+    'C14_model_is_source_select_unique': "translation of the whole common.select_unique_zipped_numpy_arrays = select_unique on one or more arrays (np.unique(axis=0, return_index=True) as the first-occurrence primitive); no array: numpy's vstack raises",
+    'C14_model_is_source_filter_unique': 'translations of the whole filter_dataset_to_unique_treatments on a ScreenSubset and on a Screen = filter_unique_view / filter_unique_screen (columns = sample ids then one treatment-id column per position, unique mask, subset)',
 }
 ASSUMPTIONS = [
     "np.unique(axis=0, return_index=True) returns, for each distinct row, the index of its first occurrence (numpy uses a stable sort "
@@ -87,7 +96,7 @@ ASSUMPTIONS = [
 EXPLANATION = ("Model: Model/Views.v on top of the shared Model/Screen.v. Compared exactly per case: parent identity, selection_vector, "
                "plate/sample/treatment ids, and every selected row (sample name, plate name, treatment names, dose keys, observation bits, "
                "mask), the model's reference index list vs np.where(selection_vector), error-ness; to_screen compared as a whole screen "
-               "(rows, ids, mappings). Not modelled: Plate.merge / plate_id / plate_name; the parent's single_treatment_effects is an opaque "
+               "(rows, ids, mappings). Plate.merge / plate_id / plate_name: see HELPER LINKS below; the parent's single_treatment_effects is an opaque "
                "value. Source link: the whole methods ScreenSubset.__init__ / subset / combine / concat / invert / to_screen / its thirteen "
                "attribute properties, ScreenBase.size / unique_plate_ids, Screen.subset / subset_observed / subset_unobserved / get_plate / "
                "plates are re-translated from VERIF_REPO's src/batchie/data.py into coq/theories/Generated/SrcViews.v on every run and the "
@@ -96,7 +105,33 @@ EXPLANATION = ("Model: Model/Views.v on top of the shared Model/Screen.v. Compar
                "A changed method either leaves the translated fragment (the build fails) or changes the generated definition and the "
                "linking proof no longer compiles; both are reported as a broken obligation. What the link trusts is listed under "
                "assumptions: the translator and the one-call primitives. The class of a result (ScreenSubset vs Plate) is not modelled; "
-               "Plate is checked to be a plain subclass of ScreenSubset without its own __init__.")
+               "Plate is checked to be a plain subclass of ScreenSubset without its own __init__."
+               '  HELPER LINKS (round 3; configurations H14_* of harness/src_functions.py -> Generated/SrcPlates.v, proofs '
+               'Proofs/C14SourceHelpers.v and Proofs/C13SourceHelpers.v): the small data.py helpers that the links of C06 / C11 / C13 '
+               '/ C14 use as primitives are translated whole on every run - Plate.plate_id / plate_name / __lt__ / merge, '
+               'ScreenBase.is_observed / n_plates / unique_plate_ids / unique_sample_ids / n_unique_samples / unique_treatments / '
+               'n_unique_treatments / treatment_arity (each on a Screen object and on a ScreenSubset / Plate object), Screen.combine, '
+               'common.select_unique_zipped_numpy_arrays, filter_dataset_to_unique_treatments (on both kinds of argument) - and proved '
+               'equal to their models at the end of Model/Views.v for all inputs (C14_model_is_source_screen_properties ... '
+               '_filter_unique).  TRUSTED by the helper links: the translator with one additive extension (cfg nested_fields: a store '
+               'through a chain of declared fields `x.a.b = e`, the numpy boolean-mask store `x.a.b[m] = v` on the array held in the '
+               'innermost field, a tuple target with field components and `_`; a field setter may be a checked store) and these '
+               'primitives, one attribute / numpy call each: len; np.unique (1-d: sorted distinct values; of a 2-d id array: of all '
+               'its entries); np.all; a.shape[0], a.shape[1]; CONTROL_SENTINEL_VALUE (read from common.py); np.setdiff1d; l[0] '
+               '(IndexError when empty); a[mask]; `a | b`; `a is not b` on Screen objects (identity tags); isinstance(x, Screen) on a '
+               'value typed as a Screen object (true); the Screen attribute reads of the C14 block; the attribute fields screen / '
+               'selection_vector of a view and plate_names / _plate_ids of a Screen (getter and setter each; the model keeps rows, so '
+               "storing plate_names rewrites row i's plate name; storing an id column is checked: a NaN cannot be stored); `a[m] = x` "
+               "(Views.mask_fill: IndexError unless the mask has the array's length, True positions get x); np.concatenate([a, b]) "
+               '(1-d: append; 2-d: ValueError unless equal column counts); Screen(<the seven keywords of to_screen / combine>) = '
+               'Views.screen_of_arrays (the constructor itself is linked by C01 / C12); len(set(l)) = number of distinct values; '
+               'np.vstack, a.T (Model/Screen.v); np.unique(a, axis=0, return_index=True) = the sorted distinct rows and, for each, the '
+               'index of its FIRST occurrence; np.zeros(n, dtype=bool); a[idx] = True (IndexError outside); a[:, i] '
+               '(Model/Screen.arr2_col); calls of translated functions (encode_1d_array_to_0_indexed_ids, self.size, self.plate_name, '
+               'self.unique_plate_ids, screen.subset, select_unique_zipped_numpy_arrays, the ScreenSubset attribute properties) run '
+               'their translations.  Aliasing is not modelled: Plate.merge returns self with its new parent; `other`, which shares the '
+               'parent object, is stale afterwards (the callers re-read the parent).  Plate.merge / plate_id / plate_name are now '
+               'modelled (view_merge, view_plate_id, view_plate_name). ')
 
 
 class NoneReturned(Exception):
